@@ -599,7 +599,7 @@ class BackendZ3(Backend):
         if op_name.startswith("RM_"):
             return RM(op_name)
         if op_name == "INTERNAL":
-            return claripy.StringV(_z3_string_decode(z3.SeqRef(ast).as_string()))
+            return claripy.StringV(_z3_string_decode(z3.SeqRef(ast, self._context).as_string()))
         if op_name == "BitVecVal":
             bv_size = z3.Z3_get_bv_sort_size(ctx, z3_sort)
             if z3.Z3_get_numeral_uint64(ctx, ast, self._c_uint64_p):
@@ -754,7 +754,7 @@ class BackendZ3(Backend):
             arg_ast = z3.Z3_get_app_arg(ctx, ast, 0)
             return self._abstract_fp_encoded_val(ctx, arg_ast)
         if op_name == "INTERNAL":
-            seq = z3.SeqRef(ast)
+            seq = z3.SeqRef(ast, self._context)
             if seq.is_string():
                 return _z3_string_decode(seq.as_string())
         raise BackendError("Unable to abstract Z3 object to primitive")
